@@ -36,7 +36,7 @@ func runC09(c *Ctx) {
 		fn := f.Function
 		b := ana.NewBuilder(c.P, fn)
 		gate := edgesMatching(b, "bin<==>(ext#1(call<repo/pkg/bip39.MnemonicToEntropy>(p0)), nil)")
-		want := "call<golang.org/x/crypto/pbkdf2.Key>(conv<[]byte>(call<(repo/pkg/bip39.Mnemonic).String>(p0)), conv<[]byte>(bin<+>(\"mnemonic\", call<(golang.org/x/text/unicode/norm.Form).String>(" + nfkd + ", p1))), 2048, 64, func<crypto/sha512.New>)"
+		want := "call<golang.org/x/crypto/pbkdf2.Key>(conv<[]byte>(call<strings.Join>(p0, \" \")), concat(\"mnemonic\", call<(golang.org/x/text/unicode/norm.Form).String>(" + nfkd + ", p1)), 2048, 64, func<crypto/sha512.New>)"
 		nOK := 0
 		for _, e := range ana.Exits(fn) {
 			if e.Panic {
@@ -48,7 +48,7 @@ func runC09(c *Ctx) {
 			if errT.Is("nil") {
 				nOK++
 				r.Check(mustPass(fn, e.Instr.Block(), plainEdges(gate)), "C09.gate.validated", c.ipos(e.Instr), "seed returned only after MnemonicToEntropy(mnemonic) returned no error")
-				_, ok := ana.Match(want, seedT)
+				_, ok := ana.MatchX(c.P, want, seedT)
 				r.Check(ok, "C09.pbkdf2-args.term", c.ipos(e.Instr), "seed term: %s", short(seedT.String(), 500))
 			} else {
 				_, ok := ana.Match("ext#1(call<repo/pkg/bip39.MnemonicToEntropy>(p0))", errT)
@@ -97,7 +97,7 @@ func runC09(c *Ctx) {
 				continue
 			}
 			t := b.Of(e.Results[0], e.Instr)
-			_, ok := ana.Match("call<strings.Fields>(call<(golang.org/x/text/unicode/norm.Form).String>("+nfkd+", p0))", t)
+			_, ok := ana.MatchX(c.P, "call<strings.Fields>(call<(golang.org/x/text/unicode/norm.Form).String>("+nfkd+", p0))", t)
 			r.Check(ok, "C09.parse.nfkd-then-fields", c.ipos(e.Instr), "ParseMnemonic(s) = %s (normalise first: NFKD can introduce spaces)", t)
 		}
 	}
